@@ -553,8 +553,53 @@ pub fn mini_leduc() -> HNode {
 }
 
 /// A named structured game, chosen by index; returns (name, tree)
+/// Chance decides who moves first; the second mover observes nothing, so each player has a
+/// single infoset that lies above the other player's infoset on some paths and below it on
+/// others (lock-ordering shapes for the parallel solvers).
+pub fn who_moves_first(rng: &mut Rng, outcomes: usize, n: usize) -> HNode {
+    let pay: Vec<Vec<f64>> = (0..n).map(|_| (0..n).map(|_| (rng.range(0, 16) as f64 - 8.0) / 4.0).collect()).collect();
+    let outs = (0..outcomes)
+        .map(|k| {
+            let sub = if k % 2 == 0 {
+                player(0, "A", (0..n).map(|i| (format!("a{}", i), player(1, "B", (0..n).map(|j| (format!("b{}", j), term(pay[i][j] + k as f64 * 0.25))).collect()))).collect())
+            } else {
+                player(1, "B", (0..n).map(|j| (format!("b{}", j), player(0, "A", (0..n).map(|i| (format!("a{}", i), term(pay[i][j] + k as f64 * 0.25))).collect()))).collect())
+            };
+            (1.0, sub)
+        })
+        .collect();
+    chance(None, outs)
+}
+
+/// Subgames in which player one's hidden move often changes nothing: the decision nodes of player
+/// two below two different actions are then distinct nodes of one infoset with identical
+/// continuations (structurally equal subtrees).
+pub fn hidden_irrelevant_move(rng: &mut Rng, subgames: usize) -> HNode {
+    let mut outs = Vec::new();
+    for g in 0..subgames {
+        let (k, b) = (rng.range(2, 4), rng.range(2, 3));
+        let mut rows: Vec<Vec<f64>> = (0..k).map(|_| (0..b).map(|_| (rng.range(0, 16) as f64 - 8.0) / 4.0).collect()).collect();
+        for a in 1..k {
+            if rng.chance(0.6) {
+                rows[a] = rows[0].clone();
+            }
+        }
+        let sub = player(
+            0,
+            format!("x{}", g),
+            (0..k).map(|a| (format!("a{}", a), player(1, format!("y{}", g), (0..b).map(|j| (format!("b{}", j), term(rows[a][j]))).collect()))).collect(),
+        );
+        outs.push((1.0 + g as f64, sub));
+    }
+    if outs.len() == 1 {
+        outs.pop().unwrap().1
+    } else {
+        chance(None, outs)
+    }
+}
+
 pub fn structured(rng: &mut Rng, which: usize) -> (String, HNode) {
-    match which % 14 {
+    match which % 16 {
         0 => ("matching_pennies".into(), matching_pennies()),
         1 => ("rps".into(), rps(1.0)),
         2 => {
@@ -590,6 +635,14 @@ pub fn structured(rng: &mut Rng, which: usize) -> (String, HNode) {
         10 => ("mini_leduc".into(), mini_leduc()),
         11 => ("rps_big".into(), rps(1e6)),
         12 => ("wide_matrix".into(), random_matrix(rng, 8, 8)),
+        14 => {
+            let (m, n) = (rng.range(2, 9), rng.range(2, 4));
+            (format!("who_moves_first(outcomes={},actions={})", m, n), who_moves_first(rng, m, n))
+        }
+        15 => {
+            let c = rng.range(1, 4);
+            (format!("hidden_irrelevant_move(subgames={})", c), hidden_irrelevant_move(rng, c))
+        }
         _ => ("centipede_deep".into(), centipede(rng.range(100, 300))),
     }
 }
@@ -597,8 +650,8 @@ pub fn structured(rng: &mut Rng, which: usize) -> (String, HNode) {
 /// Workload mix used by most properties: mostly G1, some G2. Returns (description, tree).
 pub fn any_game(rng: &mut Rng, size: usize) -> (String, HNode) {
     if rng.chance(0.2) {
-        let w = rng.below(13); // deep centipede only on request
-        structured(rng, w)
+        let w = rng.below(15); // deep centipede (13) only on request
+        structured(rng, if w >= 13 { w + 1 } else { w })
     } else {
         let par = GenParams::random(rng, size);
         let tree = random_tree(rng, &par);
